@@ -39,6 +39,7 @@ func c09Candidates(lvl int) []string {
 		gen.Seq(gen.Lit("1.", "1.0.", "1.0a", "1.0.post", "1.0.dev", "1.0+"), gen.LeadingZeros),
 		gen.Seq(gen.LeadingZeros, gen.Lit("!1.0", ".0")),
 		gen.Seq(gen.Lit("1.", "1.0.", "1.0a", "1.0.post", "1.0.dev"), gen.Lit("7", "8", "9", "10", "11")),
+		gen.SlotFamily("pypi"),
 	)
 	return g
 }
